@@ -144,8 +144,14 @@ class Hang(BaseException):
     """One execution did not finish within the wall-clock watchdog (synchronous busy loop)."""
 
 
+import os as _os
+
+# (wall-clock: generous, because checks are also run on a heavily loaded machine)
+WATCHDOG_S = float(_os.environ.get("VERIF_WATCHDOG_S") or 60)
+
+
 def _on_alarm(signum, frame):
-    raise Hang("execution did not finish within 20 s of wall-clock time")
+    raise Hang(f"execution did not finish within {WATCHDOG_S:.0f} s of wall-clock time")
 
 
 def _arm_watchdog():
@@ -154,7 +160,7 @@ def _arm_watchdog():
 
     if threading.current_thread() is threading.main_thread():
         signal.signal(signal.SIGALRM, _on_alarm)
-        signal.setitimer(signal.ITIMER_REAL, 20.0)
+        signal.setitimer(signal.ITIMER_REAL, WATCHDOG_S)
 
 
 def _disarm_watchdog():
@@ -305,7 +311,7 @@ def execute(build, prefix=(), *, eager=False, salt=1, fine=False, horizon=5000,
     _disarm_watchdog()
     if chooser.diverged is not None:
         raise ReplayDivergence(chooser.diverged)
-    if chooser.pos < len(chooser.prefix):
+    if chooser.pos < len(chooser.prefix) and getattr(ex, "status", None) != "hang":
         raise ReplayDivergence(
             f"execution ended after {chooser.pos} of {len(chooser.prefix)} recorded decisions"
         )
